@@ -215,60 +215,32 @@ Section Algebra.
         intros [H|[]]. inversion H; auto.
   Qed.
 
-  (* ------------------------------------------------------------------------------------------ absv-free models *)
-  Lemma no_abs_unresolved x (e : expr K) : has_abs e = false -> unresolved x e = false.
-  Proof.
-    induction e; cbn [has_abs unresolved]; intro H; destruct (occurs x _); try reflexivity;
-      try (apply orb_false_iff in H as [H1 H2]; now rewrite IHe1, IHe2); auto.
-    - destruct k; auto.
-    - destruct f; auto; discriminate.
-  Qed.
-  Lemma has_abs_subst (e : expr K) m a : has_abs e = false -> has_abs a = false -> has_abs (subst e m a) = false.
-  Proof.
-    intros He Ha. induction e; cbn [has_abs subst] in *; try reflexivity;
-      try (apply orb_false_iff in He as [H1 H2]; now rewrite IHe1, IHe2); auto.
-    - destruct a0; [destruct (v =? m)|]; auto.
-    - destruct f; auto; discriminate.
-  Qed.
-  Lemma has_abs_expand l (e : expr K) :
-    forallb (fun ma => negb (has_abs (snd ma))) l = true -> has_abs e = false -> has_abs (expand l e) = false.
-  Proof.
-    induction l as [|[m a] l IH]; cbn [forallb expand snd]; intros Hl He; [assumption|].
-    apply andb_true_iff in Hl as [Ha Hl]. apply negb_true_iff in Ha. apply has_abs_subst; auto.
-  Qed.
-  Lemma no_absv_fexprs (s : sys K) f x : no_absv s = true -> In f (fexprs s) -> unresolved x f = false.
-  Proof.
-    unfold no_absv, fexprs. intros H Hin. apply andb_true_iff in H as [Hr Ha].
-    apply in_map_iff in Hin as [e [<- He]]. apply no_abs_unresolved, has_abs_expand; [assumption|].
-    rewrite forallb_forall in Hr. apply negb_true_iff. now apply Hr.
-  Qed.
-
   (* ------------------------------------------------------------------------------------------ placement *)
-  Lemma j0_entries_In st (fs : list (expr K)) i j e :
-    In ((i, j), e) (j0_entries O st fs) <->
+  Lemma j0_entries_In skip st (fs : list (expr K)) i j e :
+    In ((i, j), e) (j0_entries O skip st fs) <->
     exists f y, nth_error fs i = Some f /\ nth_error st j = Some y /\
-                occurs (AV y) f && negb (unresolved (AV y) f) = true /\ e = D O f (AV y).
+                occurs (AV y) f && negb (skip (AV y) f) = true /\ e = D O f (AV y).
   Proof.
     unfold j0_entries. rewrite in_flat_map. split.
     - intros [[i' f] [Hf H]]. apply in_flat_map in H as [[j' y] [Hy H]].
-      destruct (occurs (AV y) f && negb (unresolved (AV y) f)) eqn:C; [|destruct H].
+      destruct (occurs (AV y) f && negb (skip (AV y) f)) eqn:C; [|destruct H].
       destruct H as [H|[]]. inversion H; subst. apply enumerate_In in Hf, Hy. exists f, y. auto.
     - intros [f [y [Hf [Hy [C ->]]]]]. exists (i, f). split; [now apply enumerate_In|].
       apply in_flat_map. exists (j, y). split; [now apply enumerate_In|]. rewrite C. now left.
   Qed.
 
-  Definition resolved (fs : list (expr K)) := forall f x, In f fs -> unresolved x f = false.
+  Definition resolved (skip : atom -> expr K -> bool) (fs : list (expr K)) := forall f x, In f fs -> skip x f = false.
 
   (* entry (i, j) of the assembled instantaneous matrix is D f_i y_j, for any number of state variables *)
-  Theorem mat_j0 st (fs : list (expr K)) : resolved fs -> length fs = length st ->
-    mat O (length st) (j0_entries O st fs) =
+  Theorem mat_j0 skip st (fs : list (expr K)) : resolved skip fs -> length fs = length st ->
+    mat O (length st) (j0_entries O skip st fs) =
     map (fun i => map (fun j => D O (nth i fs (Cst (o0 O))) (AV (nth j st 0))) (seq 0 (length st))) (seq 0 (length st)).
   Proof.
     intros Hres Hlen. unfold mat. apply map_ext_in. intros i Hi. apply map_ext_in. intros j Hj.
     apply in_seq in Hi, Hj. set (f := nth i fs (Cst (o0 O))). set (y := nth j st 0).
     assert (Hf : nth_error fs i = Some f) by (apply nth_error_nth'; lia).
     assert (Hy : nth_error st j = Some y) by (apply nth_error_nth'; lia).
-    assert (Hr : unresolved (AV y) f = false) by (apply Hres; eapply nth_error_In; eassumption).
+    assert (Hr : skip (AV y) f = false) by (apply Hres; eapply nth_error_In; eassumption).
     destruct (occurs (AV y) f) eqn:Hocc.
     - rewrite (lookup_unique (i, j) _ (D O f (AV y))); [reflexivity| |].
       + apply j0_entries_In. exists f, y. rewrite Hocc, Hr. auto.
@@ -279,17 +251,17 @@ Section Algebra.
         assert (f' = f) by congruence. assert (y' = y) by congruence. subst. rewrite Hocc in C. discriminate.
   Qed.
 
-  Lemma hist_entries_In st (fs : list (expr K)) d i j e :
-    In ((i, j), e) (hist_entries O true st fs d) <->
+  Lemma hist_entries_In skip st (fs : list (expr K)) d i j e :
+    In ((i, j), e) (hist_entries O true skip st fs d) <->
     exists f v, nth_error fs i = Some f /\ In (v, d) (past_map fs) /\ pos v st = Some j /\
-                occurs (AP v d) f && negb (unresolved (AP v d) f) = true /\ e = D O f (AP v d).
+                occurs (AP v d) f && negb (skip (AP v d) f) = true /\ e = D O f (AP v d).
   Proof.
     unfold hist_entries. rewrite in_flat_map. split.
     - intros [[i' f] [Hf H]]. apply in_flat_map in H as [[c [v d']] [Hc H]].
       apply enumerate_In in Hc. apply nth_error_In in Hc. apply filter_In in Hc as [Hg _].
       unfold group in Hg. apply filter_In in Hg as [Hpm Hd]. cbn in Hd. apply Nat.eqb_eq in Hd. subst d'.
       destruct (pos v st) as [vidx|] eqn:Hp; [|destruct H].
-      destruct (occurs (AP v d) f && negb (unresolved (AP v d) f)) eqn:C; [|destruct H].
+      destruct (occurs (AP v d) f && negb (skip (AP v d) f)) eqn:C; [|destruct H].
       destruct H as [H|[]]. inversion H; subst. apply enumerate_In in Hf. exists f, v. auto.
     - intros [f [v [Hf [Hpm [Hp [C ->]]]]]]. exists (i, f). split; [now apply enumerate_In|].
       assert (Hin : In (v, d) (filter (fun p => match pos (fst p) st with Some _ => true | None => false end) (group fs d))).
@@ -300,15 +272,15 @@ Section Algebra.
 
   (* entry (i, j) of the history matrix of delay d is D f_i (y_j delayed by d): the column is the state index of the delayed
      variable, whatever its position inside the delay group *)
-  Theorem mat_hist st (fs : list (expr K)) d : resolved fs -> length fs = length st -> nodupb st = true ->
-    mat O (length st) (hist_entries O true st fs d) =
+  Theorem mat_hist skip st (fs : list (expr K)) d : resolved skip fs -> length fs = length st -> nodupb st = true ->
+    mat O (length st) (hist_entries O true skip st fs d) =
     map (fun i => map (fun j => D O (nth i fs (Cst (o0 O))) (AP (nth j st 0) d)) (seq 0 (length st))) (seq 0 (length st)).
   Proof.
     intros Hres Hlen Hnd. unfold mat. apply map_ext_in. intros i Hi. apply map_ext_in. intros j Hj.
     apply in_seq in Hi, Hj. set (f := nth i fs (Cst (o0 O))). set (y := nth j st 0).
     assert (Hf : nth_error fs i = Some f) by (apply nth_error_nth'; lia).
     assert (Hy : nth_error st j = Some y) by (apply nth_error_nth'; lia).
-    assert (Hr : unresolved (AP y d) f = false) by (apply Hres; eapply nth_error_In; eassumption).
+    assert (Hr : skip (AP y d) f = false) by (apply Hres; eapply nth_error_In; eassumption).
     destruct (occurs (AP y d) f) eqn:Hocc.
     - rewrite (lookup_unique (i, j) _ (D O f (AP y d))); [reflexivity| |].
       + apply hist_entries_In. exists f, y. rewrite Hocc, Hr. repeat split; auto.
@@ -351,14 +323,14 @@ Section Algebra.
     apply Nat.eqb_eq in H2. unfold fexprs. rewrite map_length. auto.
   Qed.
 
-  (* Within the guards, the matrices that get_jacobian_func builds (expansion of intermediates, symbolic derivative, placement
+  (* Within the guard, the matrices that get_jacobian_func builds (expansion of intermediates, symbolic derivative, placement
      through the entry dictionaries) are the partial derivatives of the vector field that get_run_func evaluates, with respect
      to the state vector now (J0) and delayed by each distinct delay, in the state ordering. *)
   Theorem jac_refines (s : sys K) r :
-    wf s = true -> no_absv s = true -> no_delayed_factor_in_j0 O s = true -> jac_impl O s r = jac_spec O s r.
+    wf s = true -> no_delayed_factor_in_j0 O s = true -> jac_impl O s r = jac_spec O s r.
   Proof.
-    intros Hwf Habs Hg. destruct (wf_parts s Hwf) as [Hnd [Hlen _]].
-    assert (Hres : resolved (fexprs s)) by (intros f x Hin; now apply (no_absv_fexprs s)).
+    intros Hwf Hg. destruct (wf_parts s Hwf) as [Hnd [Hlen _]].
+    assert (Hres : resolved noskip (fexprs s)) by (intros f x Hin; reflexivity).
     unfold jac_impl, jac_impl_gen, jac_sym, jac_spec.
     unfold no_delayed_factor_in_j0 in Hg. apply negb_true_iff in Hg. rewrite Hg.
     rewrite mat_j0 by assumption. rewrite (eval_mat_spec s r AV). f_equal.
@@ -390,12 +362,12 @@ End Algebra.
 Lemma QcO_ring : ring_theory (o0 QcO) (o1 QcO) (oadd QcO) (omul QcO) (osub QcO) (oopp QcO) eq.
 Proof. exact Qcrt. Qed.
 
-(* the full statement of the property on the model, without the two guards *)
+(* the full statement of the property on the model, without the guard *)
 Definition C12_full_statement : Prop :=
   forall (s : sys Qc) (r : atom -> Qc), wf s = true -> jac_impl QcO s r = jac_spec QcO s r.
 
 Theorem jac_refines_Qc (s : sys Qc) r :
-  wf s = true -> no_absv s = true -> no_delayed_factor_in_j0 QcO s = true -> jac_impl QcO s r = jac_spec QcO s r.
+  wf s = true -> no_delayed_factor_in_j0 QcO s = true -> jac_impl QcO s r = jac_spec QcO s r.
 Proof. exact (jac_refines Qc QcO QcO_ring s r). Qed.
 
 (* ---------------------------------------------------------------------------------------------- witnesses *)
@@ -411,46 +383,48 @@ Definition w_delayed : sys Qc :=
 Definition w_delayed_env : atom -> Qc :=
   env [0; 1] [(0, mkq 1 2); (1, mkq 1 4); (2, mkq 1 2)] [(2, [mkq 1 2; mkq 3 4])].
 Lemma w_delayed_facts :
-  wf w_delayed = true /\ no_absv w_delayed = true /\ no_delayed_factor_in_j0 QcO w_delayed = false /\
+  wf w_delayed = true /\ no_delayed_factor_in_j0 QcO w_delayed = false /\
   jac_impl QcO w_delayed w_delayed_env = NameErr /\
   jac_spec QcO w_delayed w_delayed_env =
     Ok [[mkq (-1) 1; mkq 1 1]; [mkq 3 4; mkq (-1) 1]] [(2, [[mkq 0 1; mkq 0 1]; [mkq 0 1; mkq 1 2]])].
 Proof. repeat split; vm_compute; reflexivity. Qed.
 
-(* absv: x' = absv(x) + z, z' = -z.  d x'/d x = sign(x) = 1 at x = 1/2; the generated function leaves the entry 0. *)
+(* absv: x' = absv(x) + z, z' = -z.  d x'/d x = sign(x) = 1 at x = 1/2.  Before fix D51 the generated function left the entry 0;
+   since D51 it is sign(y[0]) and the model of the current code agrees with the specification. *)
 Definition w_absv : sys Qc := mksys [0; 1] [Add (Fn FAbs (V 0)) (V 1); Neg (V 1)] [].
 Definition w_absv_env : atom -> Qc := env [0; 1] [(0, mkq 1 2); (1, mkq 1 4)] [].
 Lemma w_absv_facts :
-  wf w_absv = true /\ no_absv w_absv = false /\ no_delayed_factor_in_j0 QcO w_absv = true /\
-  jac_impl QcO w_absv w_absv_env = Ok [[mkq 0 1; mkq 1 1]; [mkq 0 1; mkq (-1) 1]] [] /\
+  wf w_absv = true /\ no_delayed_factor_in_j0 QcO w_absv = true /\
+  jac_impl_preD51 QcO w_absv w_absv_env = Ok [[mkq 0 1; mkq 1 1]; [mkq 0 1; mkq (-1) 1]] [] /\
+  jac_impl QcO w_absv w_absv_env = Ok [[mkq 1 1; mkq 1 1]; [mkq 0 1; mkq (-1) 1]] [] /\
   jac_spec QcO w_absv w_absv_env = Ok [[mkq 1 1; mkq 1 1]; [mkq 0 1; mkq (-1) 1]] [].
 Proof. repeat split; vm_compute; reflexivity. Qed.
+Theorem preD51_refuted : exists s r, wf s = true /\ no_delayed_factor_in_j0 QcO s = true /\
+  jac_impl_preD51 QcO s r <> jac_spec QcO s r.
+Proof.
+  exists w_absv, w_absv_env. destruct w_absv_facts as [H1 [H2 [H3 [_ H5]]]]. repeat split; try assumption.
+  rewrite H3, H5. intro H. apply (f_equal (entry 0 0 (mkq 1 1))) in H. vm_compute in H. discriminate.
+Qed.
 
 Theorem full_statement_refuted_delayed : ~ C12_full_statement.
 Proof.
   intro H. specialize (H w_delayed w_delayed_env (proj1 w_delayed_facts)).
-  destruct w_delayed_facts as [_ [_ [_ [HI HS]]]]. rewrite HI, HS in H. discriminate.
+  destruct w_delayed_facts as [_ [_ [HI HS]]]. rewrite HI, HS in H. discriminate.
 Qed.
-Theorem full_statement_refuted_absv : ~ C12_full_statement.
-Proof.
-  intro H. specialize (H w_absv w_absv_env (proj1 w_absv_facts)).
-  apply (f_equal (entry 0 0 (mkq 1 1))) in H. vm_compute in H. discriminate.
-Qed.
-
 (* the code before fix D08: x' = -x, z' = k * past(z, tau) (0 = x, 1 = z, 2 = k, 3 = tau): the entry d z'/d z(t - tau) = k was
    written to column 0 (position of z inside its delay group) instead of column 1 (position of z in the state vector) *)
 Definition w_d08 : sys Qc := mksys [0; 1] [Neg (V 0); Mul (V 2) (At (AP 1 3))] [].
 Definition w_d08_env : atom -> Qc := env [0; 1] [(0, mkq 1 2); (1, mkq 1 4); (2, mkq 3 2); (3, mkq 1 2)] [(3, [mkq 1 2; mkq 3 4])].
 Lemma w_d08_facts :
-  wf w_d08 = true /\ no_absv w_d08 = true /\ no_delayed_factor_in_j0 QcO w_d08 = true /\
+  wf w_d08 = true /\ no_delayed_factor_in_j0 QcO w_d08 = true /\
   jac_impl_preD08 QcO w_d08 w_d08_env = Ok [[mkq (-1) 1; mkq 0 1]; [mkq 0 1; mkq 0 1]] [(3, [[mkq 0 1; mkq 0 1]; [mkq 3 2; mkq 0 1]])] /\
   jac_impl QcO w_d08 w_d08_env = Ok [[mkq (-1) 1; mkq 0 1]; [mkq 0 1; mkq 0 1]] [(3, [[mkq 0 1; mkq 0 1]; [mkq 0 1; mkq 3 2]])] /\
   jac_spec QcO w_d08 w_d08_env = jac_impl QcO w_d08 w_d08_env.
 Proof. repeat split; vm_compute; reflexivity. Qed.
-Theorem preD08_refuted : exists s r, wf s = true /\ no_absv s = true /\ no_delayed_factor_in_j0 QcO s = true /\
+Theorem preD08_refuted : exists s r, wf s = true /\ no_delayed_factor_in_j0 QcO s = true /\
   jac_impl_preD08 QcO s r <> jac_spec QcO s r.
 Proof.
-  exists w_d08, w_d08_env. destruct w_d08_facts as [H1 [H2 [H3 [H4 [H5 H6]]]]]. repeat split; try assumption.
+  exists w_d08, w_d08_env. destruct w_d08_facts as [H1 [H3 [H4 [H5 H6]]]]. repeat split; try assumption.
   rewrite H6, H4, H5. intro H. apply (f_equal (fun res => match res with Ok _ ((_, m) :: _) => Qeq_bool (this (nth 0 (nth 1 m []) 0%Qc)) 0%Q | _ => true end)) in H.
   vm_compute in H. discriminate.
 Qed.
@@ -466,7 +440,7 @@ Definition w_ok_env : atom -> Qc :=
   env [0; 1; 2] [(0, mkq 1 2); (1, mkq 1 4); (2, mkq (-1) 1); (3, mkq 3 2); (4, mkq 1 2)]
       [(4, [mkq 1 1; mkq 2 1; mkq 3 1]); (1000, [mkq 5 1; mkq 6 1; mkq 7 1])].
 Lemma w_ok_facts :
-  wf w_ok = true /\ no_absv w_ok = true /\ no_delayed_factor_in_j0 QcO w_ok = true /\
+  wf w_ok = true /\ no_delayed_factor_in_j0 QcO w_ok = true /\
   jac_impl QcO w_ok w_ok_env =
     Ok [[mkq (-3) 16; mkq 13 8; mkq 0 1]; [mkq 1 1; mkq 0 1; mkq 0 1]; [mkq 0 1; mkq 2 1; mkq (-3) 1]]
        [(4, [[mkq 0 1; mkq 0 1; mkq 0 1]; [mkq 0 1; mkq (-3) 2; mkq 0 1]; [mkq 0 1; mkq 0 1; mkq 0 1]]);
